@@ -507,6 +507,43 @@ def run(chk):
             chk.violation('impl-violation', 'accepted schedule set with zero-load hours cannot be simulated',
                           case={'schedule': 'all zero' if sched is zero else 'zero until noon'}, observed=msg,
                           expected='complete finite records')
+    # schedules as ACCEPTED by the public SchDef setters (not planted): occupant-only hours with every legal
+    # latent share, and negative fractions (either refused at assignment or simulated to the end)
+    nacc = 0
+    occ_only = [[0.0] * 8 + [0.5] * 8 + [0.0] * 8 for _ in range(3)]
+    nothing = [[0.0] * 24 for _ in range(3)]
+    neg = [[-0.25] * 24 for _ in range(3)]
+    acc_cases = [('occupants-only', lf, None) for lf in (0.3, 0.6, 1.0)] + [
+        ('negative-' + f, 0.3, f) for f in ('elec', 'light', 'occ', 'gas', 'swh')]
+    for kind, lf, negfield in acc_cases:
+        nacc += 1
+        m = U.new_model(outdir=work, outname='c10a.epw', month=6, day=1, nday=1, dtsim=300, latfocc=lf)
+        with core.quiet():
+            m.generate()
+        refused = False
+        try:
+            for s_ in m.Sch:
+                if negfield is None:
+                    s_.elec, s_.light, s_.occ = nothing, nothing, occ_only
+                else:
+                    setattr(s_, negfield, neg)
+        except AssertionError:
+            refused = True
+        if refused:
+            continue
+        msg = None
+        try:
+            with core.quiet():
+                m.simulate()
+            msg = finite_records(m)
+        except Exception as e:  # noqa
+            if negfield is None:
+                msg = '%s: %s' % (type(e).__name__, str(e)[:120])
+            # a negative load that was accepted may end in a raise (fail-stop): tolerated, noted
+        if msg:
+            bad3 += 1
+            chk.violation('impl-violation', 'schedule accepted by the SchDef setters cannot be simulated',
+                          case={'schedule': kind, 'latfocc': lf}, observed=msg, expected='complete finite records')
     # numerical blow-up must end in an exception (the shipped fatal-error parameter set)
     fatal = os.path.join(core.REPO, 'tests', 'parameters', 'initialize_fatal_error.uwg')
     nfatal = 0
@@ -523,9 +560,11 @@ def run(chk):
                               observed=msg, expected='exception or valid records')
         except Exception:  # noqa
             nfatal = 1
-    chk.direct('real-runs(records finite+bounded, file numeric, zero-load, blow-up)', len(runs) + 3,
-               len(runs) + 3, 'full runs: every record present, finite and inside 200..350 K / humidity / wind '
+    chk.direct('real-runs(records finite+bounded, file numeric, zero-load, blow-up)', len(runs) + 3 + nacc,
+               len(runs) + 3 + nacc, 'full runs: every record present, finite and inside 200..350 K / humidity / wind '
                'bounds, written fields match -?d+(.d)?; all-zero and half-zero internal-load schedules simulate; '
+               'occupant-only hours assigned through the SchDef setters simulate for latfocc 0.3 / 0.6 / 1.0, negative '
+               'fractions are refused by the setters or simulate; '
                'the shipped blow-up parameter set at dtsim=3600 ends in an exception (%s)' % (
                    'raised' if nfatal else 'returned valid records'), mismatches=bad3)
     changed_after_generate(chk, work)
